@@ -353,3 +353,39 @@ def selfref_catalogue():
             '(deflayermap (l) a @zz)', '(defvirtualkeys v (on-press tap-vkey v))', '(deffakekeys v (on-press-fakekey v tap))',
             '(defchords c 10 (a) (chord c a))', '(defseq s (a)) (defvirtualkeys s (sequence 10))']
     return out
+
+
+def capacity_catalogue():
+    """complete configurations at every documented capacity and one or two beyond it: the table a count indexes must be as long as
+    the check before it allows"""
+    out = []
+    base = '(defsrc a b)\n(deflayer base a b)\n'
+    for n in (765, 766, 767, 768, 769, 770):
+        names = ' '.join('v%d x' % i for i in range(n))
+        out.append(('vkeys-%d' % n, base + '(defvirtualkeys %s)' % names))
+        out.append(('fakekeys-%d' % n, base + '(deffakekeys %s)' % names))
+        half = n // 2
+        out.append(('fake+vkeys-%d' % n, base + '(deffakekeys %s)\n(defvirtualkeys %s)' % (
+            ' '.join('f%d x' % i for i in range(half)), ' '.join('v%d y' % i for i in range(n - half)))))
+        out.append(('vkeys-used-%d' % n, '(defsrc a b)\n(deflayer base (on-press tap-vkey v%d) (on-press press-vkey v0))\n(defvirtualkeys %s)' % (n - 1, names)))
+    for n in (126, 127, 128, 129, 130):
+        keys = ' '.join('(k%d) a' % i for i in range(n))
+        out.append(('chord-keys-%d' % n, '(defsrc a b)\n(deflayer base (chord g k0) (chord g k%d))\n(defchords g 100 %s)' % (n - 1, keys)))
+    for n in (5, 6, 7, 8):
+        ks = 'a b c d e f g h'.split()[:n]
+        out.append(('overlap-%d' % n, '(defsrc %s)\n(deflayer base %s)\n(defvirtualkeys v x)\n(defseq v (O-(%s)))' % (' '.join(ks), ' '.join(ks), ' '.join(ks))))
+    for d in (7, 8, 9, 10):
+        e = 'a'
+        for _ in range(d - 1):
+            e = '(and %s)' % e
+        out.append(('switch-depth-%d' % d, '(defsrc a b)\n(deflayer base (switch (%s) x break) b)' % e))
+    for n in (4093, 4094, 4095, 4096, 4097):
+        out.append(('switch-items-%d' % n, '(defsrc a b)\n(deflayer base (switch ((or %s)) x break) b)' % ' '.join(['a'] * n)))
+    for n in (255, 256, 257, 1000):
+        out.append(('tap-dance-%d' % n, '(defsrc a b)\n(deflayer base (tap-dance 100 (%s)) b)' % ' '.join(['x'] * n)))
+        out.append(('multi-%d' % n, '(defsrc a b)\n(deflayer base (multi %s) b)' % ' '.join(['x'] * n)))
+        out.append(('macro-%d' % n, '(defsrc a b)\n(deflayer base (macro %s) b)' % ' '.join(['x'] * n)))
+        out.append(('seq-len-%d' % n, '(defsrc a b)\n(deflayer base a b)\n(defvirtualkeys v x)\n(defseq v (%s))' % ' '.join(['a'] * n)))
+    for n in (24, 25, 26, 100):
+        out.append(('layers-%d' % n, '(defsrc a b)\n' + '\n'.join('(deflayer l%d a (layer-while-held l%d))' % (i, (i + 1) % n) for i in range(n))))
+    return out
